@@ -11,7 +11,7 @@ Property theorems only (helper lemmas are in `Lemmas/Resample.lean`). The model
 `(x, y, z, t)` with `t = timestamp.toAbsTime()`; the stamp of an output is the C03 model (`stampOf`). All
 statements are over an arbitrary linearly ordered field (ℚ, ℝ): for every track, every list of instants, every step.
 Sections: T1–T4 (temporal / spatial), D1–D4 (degenerate requests), S1 (millisecond stamps), T3d (pauses),
-O1–O5 (callers), T4c / T4' (the clamp of the interpolated time, fix 20ed89f: a no-op in exact arithmetic; what it
+O1–O5 (callers), T5 (the forms giving a number of points: the property's answer for the step the output exhibits), T4c / T4' (the clamp of the interpolated time, fix 20ed89f: a no-op in exact arithmetic; what it
 guarantees in ANY arithmetic), T2' / T3e / S2 (repeated timestamps: the interpolant in the original order of the fixes, legs travelled
 in no time, the calendar stamps of a spatially resampled track never decrease).
 
@@ -383,6 +383,53 @@ theorem frontend_empty_request (sqrt : α → α) (trunc : α → Int) (g : α) 
   obtain ⟨_, _, hf, _⟩ := frontend sqrt trunc g P feat hn npts factor
   obtain ⟨h0, h1, _⟩ := temporal_degenerate trunc P hn
   exact ⟨by rw [hf, h0], by rw [hf, h1]⟩
+
+/-- T5 `npts_exhibits_step`. The forms of `Track.resample` that give a NUMBER OF POINTS instead of a step
+(`npts=`, `factor=`, `track ** n`, `track * k`: `delta is None`). The statement of the property fixes the result *for a
+step*; it does not say which step is derived from a number of points. Whatever the guard constant `g > 0` and whatever
+`npts`/`factor` (not zero), on a track whose stamps never decrease the front end returns the property's answer for SOME
+positive constant step, the one its output exhibits: spatial mode (a track of positive 3D length) — the first fix
+followed by the `N` specification samples at curvilinear abscissas `ds, 2ds, …, N·ds` of the 2D polyline,
+`N·ds ≤ L₂D < (N+1)·ds` (T3a; each on the polyline with interpolated height and time by T3/T3d, times never decreasing
+by T4); temporal mode (positive duration) — the `K` specification samples at `tini + δ, …, tini + Kδ`,
+`tini + Kδ ≤ tfin < tini + (K+1)δ` (T1/T2). The oracle of the harness judges these calls in exactly this way (step
+recovered from the output); that the step is `g·D/npts` with `D` the 3D length / the duration is `frontend` (c) and is
+checked by the correspondence only. -/
+theorem npts_exhibits_step (sqrt : α → α) (hs : SqrtSpec sqrt) (trunc : α → Int) (htr : TruncSpec trunc)
+    (g : α) (hg : 0 < g) (P : List (Fix α)) (feat : List String) (hn : 0 < P.length)
+    (hT : (P.map (·.t)).Pairwise (· ≤ ·)) (npts : Option Nat) (factor : Nat)
+    (hnp : npts.getD (P.length * factor) ≠ 0) :
+    (0 < total (legs3D sqrt P) →
+      ∃ (ds : α) (N : Nat), 0 < ds ∧
+        resample sqrt trunc g P feat ⟨1, none, npts, factor⟩
+          = .ok (P[0] :: (List.range N).map
+              (fun (j : Nat) => sampleS P (cum (legs2D sqrt P)) (((j + 1 : Nat) : α) * ds)), []) ∧
+        (N : α) * ds ≤ polyLen (legs2D sqrt P) ∧ polyLen (legs2D sqrt P) < ((N : α) + 1) * ds) ∧
+    ((P[0]).t < (P[P.length - 1]).t →
+      ∃ (δ : α) (K : Nat), 0 < δ ∧
+        resample sqrt trunc g P feat ⟨2, none, npts, factor⟩
+          = .ok ((List.range K).map (fun (k : Nat) => sampleT P ((P[0]).t + ((k + 1 : Nat) : α) * δ)), []) ∧
+        (P[0]).t + (K : α) * δ ≤ (P[P.length - 1]).t ∧
+        (P[P.length - 1]).t < (P[0]).t + ((K : α) + 1) * δ) := by
+  obtain ⟨_, _, hft, hfs, _, hnone⟩ := frontend sqrt trunc g P feat hn npts factor
+  obtain ⟨h2, h1⟩ := hnone hnp
+  have hnpos : (0 : α) < ((npts.getD (P.length * factor) : Nat) : α) := by
+    exact_mod_cast Nat.pos_of_ne_zero hnp
+  constructor
+  · intro hL
+    have hds : 0 < g * total (legs3D sqrt P) / ((npts.getD (P.length * factor) : Nat) : α) :=
+      div_pos (mul_pos hg hL) hnpos
+    obtain ⟨hrs, hlen, hlegs, _⟩ := spatial_legs sqrt hs trunc P hn
+      (g * total (legs3D sqrt P) / ((npts.getD (P.length * factor) : Nat) : α))
+    obtain ⟨N, hN, hb1, hb2⟩ := spatial_samples trunc htr P (legs2D sqrt P) hlen hlegs hT _ hds
+    refine ⟨_, N, hds, ?_, hb1, hb2⟩
+    rw [h1, hfs, hrs, hN]
+  · intro hdur
+    have hδ : (0 : α) < g * ((P[P.length - 1]).t - (P[0]).t) / ((npts.getD (P.length * factor) : Nat) : α) :=
+      div_pos (mul_pos hg (sub_pos.mpr hdur)) hnpos
+    obtain ⟨K, hK, hb1, hb2⟩ := temporal_number_step trunc htr P hn (le_of_lt hdur) _ hδ
+    refine ⟨_, K, hδ, ?_, hb1, hb2⟩
+    rw [h2, hft, hK]
 
 /-! ### millisecond stamps (composition with the C03 model) -/
 
@@ -876,6 +923,12 @@ example : resample (fun x : ℚ => x) (fun x : ℚ => x.floor) 1 demo ["speed"] 
     = .ok ([], []) := by decide +kernel
 example : (resample (fun x : ℚ => x) (fun x : ℚ => x.floor) 1 demo ["speed"] ⟨2, none, some 5, 1⟩).toOption.map
     (fun r => r.1.length) = some 5 := by decide +kernel
+/-- T5 on a concrete input, spatial mode: with the stand-in `sqrt = id` the 2D legs of `demo` are 25, 0, 25 and the 3D legs
+125, 0, 125; `npts = 10` derives the step 250/10 = 25 and the output is the first fix and the samples at abscissas 25 and 50
+(3 observations, not 10: the step comes from the 3D length, the samples are laid along the 2D polyline) -/
+example : (resample (fun x : ℚ => x) (fun x : ℚ => x.floor) 1 demo ["speed"] ⟨1, none, some 10, 1⟩).toOption.map
+    (fun r => r.1.map (·.x)) = some [0, 3, 6] := by decide +kernel
+example : (0 : ℚ) < total (legs3D (fun x : ℚ => x) demo) ∧ (demo[0]).t < (demo[demo.length - 1]).t := by decide +kernel
 
 /-- the contract of `⌊1000·t⌋` is met on ℚ -/
 example : MsSpec (fun t : ℚ => (t * 1000).floor) := by
